@@ -205,7 +205,7 @@ mod replacer;
 mod vm;
 
 use crate::analyze::analyze;
-use crate::compile::compile;
+use crate::compile::compile_with_options;
 use crate::parse::{ExprTree, NamedGroups, Parser};
 use crate::vm::{Prog, OPTION_SKIPPED_EMPTY_MATCH};
 
@@ -660,7 +660,11 @@ impl Regex {
     }
 
     fn new_options(options: RegexOptions) -> Result<Regex> {
-        let raw_tree = Expr::parse_tree(&options.pattern)?;
+        // The builder's case-insensitive option means the same as a leading `(?i)`: it is folded
+        // into the tree here, so that it also reaches the parts the VM matches itself and can be
+        // switched off again by `(?-i:...)`.
+        let casei = options.syntaxc.get_case_insensitive();
+        let raw_tree = Parser::parse_with_casei(&options.pattern, casei)?;
 
         // wrapper to search for re at arbitrary start position,
         // and to capture the match bounds
@@ -690,7 +694,7 @@ impl Regex {
             });
         }
 
-        let prog = compile(&info)?;
+        let prog = compile_with_options(&info, &options)?;
         Ok(Regex {
             inner: RegexImpl::Fancy {
                 prog,
